@@ -633,6 +633,12 @@ def r13(rr, repo):
                 url_kinds.add('option')
         else:
             rr.unresolved('a reservation of a user-given port takes the port from something this rule does not know', cmod, n, witness=v[:100], key='reserve-kind')
+        # round 16: a port the user gave as an option, as the metrics output or in a source is bound (or connected to) whether or not the filter ALSO has explicit outputs:
+        # only the reservations that read an explicit output may depend on the filter having outputs (Webvis / REST and every auto-wired middle filter have none)
+        if 'output' not in v.replace('outputs_metrics', '') and not any('output' in t.replace('outputs_metrics', '') for t, p in g if '.match(' in t or 'startswith' in t):
+            dep = [t for t, p in g if 'config.outputs' in t.replace(' ', '') or re.search(r'\boutputs\b(?!_)', t)]
+            rr.ob("a port given as the `port` option, as the metrics output or in a source is reserved whether or not the filter has explicit outputs of its own", not dep, cmod, n,
+                  witness=(dep[0][:120] if dep else v[:80]), key='reserve-independent-of-outputs|' + ('outputs_metrics' if 'outputs_metrics' in v or any('outputs_metrics' in t for t, p in g) else 'option' if v.replace(' ', '') == 'max(max_port,port)' else 'source'))
     rr.ob("ports the user gave outside the tcp:// sources / outputs are reserved too: in source URLs, in output URLs of other schemes (Webvis' http://0.0.0.0:5550), as the `port` option and as the dedicated metrics output (`outputs_metrics`, which binds its own pair of ports)", {'source', 'output', 'option', 'outputs_metrics'} <= url_kinds, cmod,
           scans[0] if scans else pf, witness=f'kinds of non-tcp reservations found: {sorted(url_kinds) or "none"}', key='reserve-non-tcp-ports')
     tcp_metrics = [n for n in scans if 'outputs_metrics' in U(n.value) and 'rsplit(' in U(n.value) and '5550' in U(n.value)]
